@@ -5,6 +5,7 @@ package checks
 import (
 	"encoding/json"
 	"fmt"
+	"os"
 	"sort"
 	"strings"
 
@@ -455,6 +456,10 @@ func poolable(o object.PanObject) bool {
 	switch v := o.(type) {
 	case *object.PanInt:
 		return v.Value > -10000 && v.Value < 10000
+	case *object.PanFloat:
+		// (numbers are iterable - `n@f` visits 1..n without entering Eval, so without the step
+		// budget: a huge float in the pool made one history spin for minutes)
+		return v.Value > -10000 && v.Value < 10000
 	case *object.PanStr:
 		return len(v.Value) <= 64
 	case *object.PanArr:
@@ -577,6 +582,9 @@ func (c *c06Check) runHist(seed, run uint64, t *tape.Tape, s *C06Stats, lines *[
 		prog, err := harness.Parse(src)
 		if err != nil {
 			return harness.Result{}, false
+		}
+		if os.Getenv("VERIF_C06_DEBUG") != "" {
+			fmt.Fprintf(os.Stderr, "C06 line: %s\n", src)
 		}
 		cal := &harness.Callee{Plan: plan, Limit: 5000, OnCall: witness}
 		if c.evalHook != nil {
